@@ -90,7 +90,10 @@ def driver(chk, n):
 def no_zero_inverse(recs):
     """VERIFY builds abort inside secp256k1_ecdsa_adaptor_recover when the signature object has s = 0 (serialising the point at infinity
     trips an internal VERIFY_CHECK; the production build returns 0 as specified) -- such records are replayed on non-VERIFY builds only"""
-    return [r for r in recs if not (r["e"] == "AdaptorRecover" and not any(r["in"]["sig"][32:]))]
+    def s_is_zero(sig):   # an unparsable compact signature leaves the all-zero object behind
+        r, s = int.from_bytes(bytes(sig[:32]), "big"), int.from_bytes(bytes(sig[32:]), "big")
+        return s == 0 or r >= N or s >= N
+    return [r for r in recs if not (r["e"] == "AdaptorRecover" and s_is_zero(r["in"]["sig"]))]
 
 
 def run(chk):
@@ -103,7 +106,7 @@ def run(chk):
     chk.exhaustive = True
     recs = chk.generate(MODULE, "C14_gen.cfg", "gen", timeout=3000)
     for v in (["std"] if quick else ["std", "verify", "i64", "i128s", "noasm"]):
-        chk.replay(no_zero_inverse(recs) if v == "verify" else recs, v, "generated boundary records")
+        chk.replay(recs, v, "generated boundary records")   # (the s = 0 abort on VERIFY builds was finding F2, fixed in /repo 66e0535)
     chk.validate(driver(chk, 30 if quick else 400), MODULE, "C14_trace.cfg", "driver", timeout=3000)
     return chk.finish(LEVEL,
         "G: TLC enumerates Cases of C14_Adaptor.tla (pipelines over boundary keys/messages/nonce sources; all 1296 single-bit flips of an honest adaptor signature "
